@@ -333,7 +333,8 @@ package hashgraph
 //@   loop 2 invariant[memo] h.MemoOK()
 
 //@ func (h *Hashgraph) InsertEvent(event *Event, setWireInfo bool) error
-//@   requires h != nil && event != nil && len(event.Body.Parents) == 2 && h.PendingSignatures != nil && h.PendingSignatures.items != nil
+//@   requires h != nil && event != nil && len(event.Body.Parents) == 2 && h.PendingSignatures != nil && h.PendingSignatures.items != nil && h.MemoOK()
+//@   ensures[memo]                 h.MemoOK()
 //@   ensures[signed]               ret0 == nil ==> EventSigOK(event)
 //@   ensures[known-creator]        ret0 == nil ==> __in(CreatorOf(event), G_rep(h.Store))
 //@   ensures[self-parent-is-head]  ret0 == nil ==> (old(G_lastIdx(h.Store))[CreatorOf(event)] == -1 && event.Body.Parents[0] == "") || (old(G_lastIdx(h.Store))[CreatorOf(event)] >= 0 && event.Body.Parents[0] != "" && event.Body.Parents[0] == old(G_last(h.Store))[CreatorOf(event)])
@@ -549,30 +550,37 @@ package hashgraph
 
 //@ func (h *Hashgraph) createRoot(participant string, head string) (*Root, error)
 //@   trusted not verified (builds the root of fixed depth for a participant; C13 material); only its frame is used
-//@   requires h != nil
-//@   modifies anyghost common.m, G_miss(h.Store)
+//@   requires h != nil && h.MemoOK()
+//@   modifies common.G_m(h.witnessCache), common.G_m(h.roundCache), common.G_m(h.stronglySeeCache), common.G_m(h.timestampCache), G_miss(h.Store)
 //@   ensures[fresh] ret1 == nil ==> ret0 != nil
+//@   ensures[memo]  h.MemoOK()
 
 //@ func (h *Hashgraph) createFrameEvent(x string) (*FrameEvent, error)
-//@   requires h != nil
-//@   modifies anyghost common.m, G_miss(h.Store)
+//@   requires h != nil && h.MemoOK()
+//@   modifies common.G_m(h.witnessCache), common.G_m(h.roundCache), common.G_m(h.stronglySeeCache), common.G_m(h.timestampCache), G_miss(h.Store)
+//@   ensures[memo] h.MemoOK()
 //@   ensures[core] ret1 == nil ==> ret0 != nil && __fresh(ret0) && ret0.Core != nil && ret0.Core == G_events(h.Store)[x] && __in(x, G_events(h.Store))
 
 // FW: x is a famous witness recorded in round-info r.
 //@ ghost func FW(r *RoundInfo, x string) bool { return __in(x, r.CreatedEvents) && r.CreatedEvents[x].Witness && r.CreatedEvents[x].Famous == common.True }
 
 //@ func (h *Hashgraph) GetFrame(roundReceived int) (*Frame, error)
-//@   requires h != nil
-//@   modifies anyghost common.m, G_frames(h.Store), G_fault(h.Store), G_miss(h.Store)
+//@   requires h != nil && h.MemoOK()
+//@   modifies common.G_m(h.witnessCache), common.G_m(h.roundCache), common.G_m(h.stronglySeeCache), common.G_m(h.timestampCache), G_frames(h.Store), G_fault(h.Store), G_miss(h.Store)
+//@   ensures[memo]      h.MemoOK()
 //@   ensures[stored-or-computed] ret1 == nil ==> ret0 != nil && (__called("SetFrame") || ret0 == old(G_frames(h.Store))[roundReceived])
 //@   ensures[wf]        ret1 == nil ==> FrameWF(ret0)
 //@   ensures[timestamp] ret1 == nil && __called("SetFrame") ==> common.IsMedianOf(timestamps, ret0.Timestamp)
 //@   ensures[famous]    ret1 == nil && __called("SetFrame") ==> (exists fw []string :: __enum(fw, round.CreatedEvents, func(x string) bool { return FW(round, x) }) && len(timestamps) == len(fw) && (forall k int :: 0 <= k && k < len(fw) ==> __in(fw[k], G_events(h.Store)) && timestamps[k] == G_events(h.Store)[fw[k]].Body.Timestamp))
 //@   ensures[round]     ret1 == nil && __called("SetFrame") ==> round == G_rounds(h.Store)[roundReceived] && ret0.Round == roundReceived
-//@   loop 1 modifies anyghost common.m, G_miss(h.Store)
-//@   loop 2 modifies anyghost common.m, G_miss(h.Store), roots[*]
-//@   loop 3 modifies anyghost common.m, G_miss(h.Store), roots[*]
+//@   loop 1 modifies common.G_m(h.witnessCache), common.G_m(h.roundCache), common.G_m(h.stronglySeeCache), common.G_m(h.timestampCache), G_miss(h.Store)
+//@   loop 2 modifies common.G_m(h.witnessCache), common.G_m(h.roundCache), common.G_m(h.stronglySeeCache), common.G_m(h.timestampCache), G_miss(h.Store), roots[*]
+//@   loop 3 modifies common.G_m(h.witnessCache), common.G_m(h.roundCache), common.G_m(h.stronglySeeCache), common.G_m(h.timestampCache), G_miss(h.Store), roots[*]
 //@   loop 4 modifies G_miss(h.Store)
+//@   loop 1 invariant[memo] h.MemoOK()
+//@   loop 2 invariant[memo] h.MemoOK()
+//@   loop 3 invariant[memo] h.MemoOK()
+//@   loop 4 invariant[memo] h.MemoOK()
 //@   loop 1 invariant[cores] !(events == nil) && (forall k int :: 0 <= k && k < len(events) ==> events[k] != nil && events[k].Core != nil)
 //@   loop 2 invariant[cores] forall k int :: 0 <= k && k < len(events) ==> events[k] != nil && events[k].Core != nil
 //@   loop 4 invariant[ts] !(timestamps == nil) && len(timestamps) == __idx() && (forall k int :: 0 <= k && k < __idx() ==> __in(__ranged([]string(nil))[k], G_events(h.Store)) && timestamps[k] == G_events(h.Store)[__ranged([]string(nil))[k]].Body.Timestamp)
@@ -725,7 +733,9 @@ package hashgraph
 //@   modifies G_fault(s)
 
 //@ func (h *Hashgraph) ProcessDecidedRounds() error
-//@   requires h != nil && h.PendingRounds != nil && h.PendingRounds.wf()
+//@   requires h != nil && h.PendingRounds != nil && h.PendingRounds.wf() && h.MemoOK()
+//@   ensures[memo] h.MemoOK()
+//@   loop 1 invariant[memo] h.MemoOK()
 //@   callback commitCallback modifies any Block.Body, anymap map[string]string, G_blocks(h.Store), G_bodies(h.Store), G_lastBlock(h.Store), G_pset(h.Store), G_psetOK(h.Store), G_rep(h.Store), G_fault(h.Store), h.AnchorBlock, anyptr int
 //@   call NewBlockFromFrame assert[index]   __arg(0) == G_lastBlock(h.Store) + 1
 //@   call GetFrame          assert[decided] r.Decided && __arg(0) == r.Index
